@@ -3,5 +3,8 @@
 cd "$(dirname "$0")"
 /venv/bin/python -c "import hypothesis" 2>/dev/null || \
   /venv/bin/pip install --no-index --find-links /opt/veriftools/wheels hypothesis
+# optional: atheris (coverage-guided fuzzing campaigns of C06) into a private directory, never into /venv
+[ -d .deps/atheris ] || /venv/bin/pip install -q --no-index --find-links /opt/veriftools/wheels --target ./.deps atheris \
+  || echo "atheris not available: the C06 fuzz sub-check will be skipped"
 /venv/bin/python -m vp.build || exit 2
 exit 0
